@@ -307,6 +307,31 @@ impl ProtoCtx {
             ("prove_req", 2) => { let mut c = Cursor::new(Vec::new()); let r = self.rln().generate_rln_proof(Cursor::new(parse_bytes(w[1])?), &mut c); out(r, c) }
             ("prove_wit", 2) => { let mut c = Cursor::new(Vec::new()); let r = self.rln().generate_rln_proof_with_witness(Cursor::new(parse_bytes(w[1])?), &mut c); out(r, c) }
             ("prove_raw", 2) => { let mut c = Cursor::new(Vec::new()); let r = self.rln().prove(Cursor::new(parse_bytes(w[1])?), &mut c); out(r, c) }
+            // fourth proving entry point: an externally computed witness vector (as rln-wasm does) + generate_proof_with_witness
+            ("prove_ext", 2) => {
+                use ark_serialize::CanonicalSerialize;
+                let b = parse_bytes(w[1])?;
+                match deserialize_witness(&b) {
+                    Err(_) => "err".into(),
+                    Ok((wi, _)) => match (proof_values_from_witness(&wi), inputs_for_witness_calculation(&wi)) {
+                        (Ok(pv), Ok(inputs)) => {
+                            let inputs = inputs.into_iter().map(|(n, v)| (n.to_string(), v));
+                            let wit = rln::circuit::calculate_rln_witness(inputs, rln::circuit::graph_from_folder());
+                            let big: Vec<num_bigint::BigInt> = wit.iter().map(|f| to_bigint(f).unwrap()).collect();
+                            match generate_proof_with_witness(big, zkey_from_folder()) {
+                                Ok(proof) => {
+                                    let mut out = Vec::new();
+                                    proof.serialize_compressed(&mut out).ok()?;
+                                    out.extend_from_slice(&serialize_proof_values(&pv));
+                                    format!("ok {}", show_bytes(&out))
+                                }
+                                Err(_) => "err".into(),
+                            }
+                        }
+                        _ => "err".into(),
+                    },
+                }
+            }
             ("witness_req", 2) => match self.rln().get_serialized_rln_witness(Cursor::new(parse_bytes(w[1])?)) { Ok(b) => format!("ok {}", show_bytes(&b)), Err(_) => "err".into() },
             // verification entry points (trailing oracle fields are for the model side only)
             ("verify", _) if w.len() >= 2 => verdict(self.rln().verify(Cursor::new(parse_bytes(w[1])?))),
